@@ -2,6 +2,7 @@
 package drv
 
 import (
+	"bufio"
 	"net"
 
 	"verifharness/hx"
@@ -24,3 +25,5 @@ func listen() net.Listener {
 	}
 	return ln
 }
+
+func newBufReader(c net.Conn) *bufio.Reader { return bufio.NewReaderSize(c, 64*1024) }
